@@ -415,9 +415,10 @@ Definition req_hostname (rhost : bytes) : bytes := host_only rhost.
 (* the host the vhost trie is searched for: Match(hostname + "/") *)
 Definition route_host (rhost : bytes) : bytes := vhost_key (req_hostname rhost ++ [SLASH]).
 
-Definition strict_fail (c : tcfg) (tls : option bytes) (hostname : bytes) : bool :=
+(* the SNI value is compared to the host name the site was looked up by (routedHost) *)
+Definition strict_fail (c : tcfg) (tls : option bytes) (routed : bytes) : bool :=
   match tls with
-  | Some sni => demands c && negb (beq (to_lower sni) (to_lower hostname))
+  | Some sni => demands c && negb (beq (to_lower sni) routed)
   | None => false
   end.
 
@@ -427,7 +428,7 @@ Definition serve (sites : list site) (tls : option bytes) (rhost : bytes) : outc
   | Some (_, i) =>
       match nth_error sites i with
       | None => NoSite
-      | Some s => if strict_fail (s_tls s) tls (req_hostname rhost) then Forbidden i else Served i
+      | Some s => if strict_fail (s_tls s) tls (route_host rhost) then Forbidden i else Served i
       end
   end.
 
@@ -594,7 +595,7 @@ Definition serve_spec (sites : list site) (tls : option bytes) (rhost : bytes)
       match nth_error sites v, tls with
       | Some s, Some sni =>
           if demands (s_tls s) then
-            beq (to_lower sni) (to_lower (req_hostname rhost)) &&
+            beq (to_lower sni) (route_host rhost) &&
             match obs_gov with
             | LGov g _ => match nth_error sites g with
                           | Some sg => same_policy (s_tls sg) (s_tls s)
@@ -606,9 +607,10 @@ Definition serve_spec (sites : list site) (tls : option bytes) (rhost : bytes)
       | None, _ => false
       end
   | SForbidden =>
-      (* refused only for a name mismatch on a TLS connection *)
+      (* refused only for a name mismatch on a TLS connection (SNI against the host name the
+         request is routed by) *)
       match tls with
-      | Some sni => negb (beq (to_lower sni) (to_lower (req_hostname rhost)))
+      | Some sni => negb (beq (to_lower sni) (route_host rhost))
       | None => false
       end
   | SNoSite => true
